@@ -23,6 +23,13 @@
 // the reply carries X-GRPC-Status - whatever options it passed; without the header OK
 // for 2xx only. The options must not change the outcome, and grpc.Header/grpc.Trailer
 // variables receive the metadata the handler set (reference: grpc-go).
+//
+// A panic of library code is a violation for the case at hand in every phase, and the
+// enumeration goes on: the handler side is guarded wherever it runs (recorder, inside a
+// round tripper, under net/http on loopback: guard.go, clause server-panic /
+// backend-panic), the client's calls are made under recover (clause panic), and the
+// calls of the streaming client - whose own goroutine no recover of the caller's can
+// reach - are made in a child process (isolate.go, clause panic-escaped).
 package main
 
 import (
@@ -1050,7 +1057,7 @@ func main() {
 				o := o
 				cc := c
 				cc.Opts = &o
-				if o.X != "" && !isLibPanic(clause) {
+				if o.X != "" {
 					kind := "client-opt"
 					if c.Stream {
 						kind = "stream-client-opt"
@@ -1199,7 +1206,9 @@ func main() {
 						o := o
 						cc := c
 						cc.Opts = &o
-						if o.X != "" && !isLibPanic(clause) {
+						if o.X != "" && !isHandlerPanic(clause) {
+							// (a panic of the handler has nothing to do with the caller's options; one
+							// that took the process down under an extra option did not do so without it)
 							outcome := "failure"
 							if code == 0 {
 								outcome = "success"
@@ -1576,13 +1585,14 @@ func main() {
 		"option_lists":        len(optSets),
 		"option_lists_sweeps": len(sweepSets),
 		"collapsed_failures":  col.collapsed,
-		"rule": fmt.Sprintf("total enumeration. (a) unary, server then client: (%d gRPC codes: 0..17, 99, 1000, 2^31-1, 2^31, 3e9, 2^32-1%s) x (request context live/cancelled) x (%d renderers: %s) x (handler sets no metadata / header / trailer / both) x (message \"msg\" / empty / with colons) x (0..2 status details) through the real server on a recorder [plus GRPC-Timeout expired/far x cancelled x 3 codes, and an error carrying OK x renderers], and every recorded reply through the real client once for EACH of the %d call-option lists {0,1,2 grpc.Header} x {0,1,2 grpc.Trailer} x {grpc.Peer or not} x {grpc.PerRPCCredentials or not}, body intact and cut short. (b) unary, synthetic replies: every HTTP status 100..599 x 6 X-GRPC-Status shapes (absent, \"\", \"x:y\", \":\", \"5\", \"5:a:b: c\") x reply metadata present or not x X-GRPC-Details present or not x body (encoded response / empty) x %d option lists (quick tier: every subset of the four option kinds plus the doubled Header/Trailer lists, 19; thorough: all 36) through Invoke. (c) the same statuses x shapes x metadata (x details header%s) x the same option lists through NewStream with a well-formed framed body. (d) server-streaming method end to end through the real server and client: codes x handler metadata x message x details x (0 or 1 message sent first) x option lists, plus an error carrying OK. (e) handler-set metadata colliding with the protocol's own response headers: %d entries = {x-grpc-status: another code+message / \"0:OK\" / unparseable / the handler's code with another message; x-grpc-details: a decodable stale detail / not base64; content-type: text/plain / application/json; content-length: 0 / 3 / 99999} x {grpc.SetHeader(key), grpc.SetTrailer(key), grpc.SetHeader(\"x-grpc-trailer-\"+key)}, each contradicting what the handler then returns, crossed with codes x live/cancelled x renderers x handler metadata (%s) x all option lists, body intact and cut short; status details 1..2 swept for the status/details entries and the message shapes for the status entries; plus an error carrying OK x entries x renderers [%d server cases]. (f) the two-hop chain end to end: a backend httpgrpc server (every code x 0..1 details, sets h-key/t-key) called through an httpgrpc channel by a gateway handler that relays the backend call's grpc.Header / grpc.Trailer metadata (header only / trailer only / both) with grpc.SetHeader / SetTrailer and then returns its own outcome (%d gateway codes x 0..1 details, %s) x renderers x all option lists of the outer caller [%d cases]. (g) the same entries and the chain (backend codes 0/5/14, both hops) over net/http on loopback for gateway codes 0/5/14 x renderers x option lists {none, header+trailer}, and the stream entries for codes 0/5 [%d cases]. (h) server-streaming method: the same %d key/value pairs x {SetHeader, SendHeader, SetTrailer} x codes x (0 or 1 message sent) x (0..1 details for status/details entries) x all option lists [%d cases]. Oracle: documented HTTP status (499 rule); the caller gets exactly the handler's code, message and details whenever X-GRPC-Status is present, under every option list; without it OK for 2xx only; grpc.Header/grpc.Trailer variables hold the handler's h-key/t-key. In (e)-(h) the oracle is the same: what the HANDLER (the gateway) returned, whatever metadata it set. A case is non-trivial when it reaches the error renderer or the status-derivation path (everything except the plain OK reply of (a)/(d); a success of (e)/(f) counts only when a status or details header is on the recorded reply; (g)/(h) by all parameters); distinct by all its parameters including the option list. Failures are reported once per (old-grammar case, clause) - in (e)-(h) once per (colliding entry or chain, handler succeeded/failed, clause) - under the simplest failing member; the rest are counted in collapsed_failures. (i) how the handler's error carries the code: %d carriers {status.Error as it is; wrapped with %%w once / twice; inside an application error type with Unwrap(); errors.Join(status, other) / errors.Join(other, status); an application error type with GRPCStatus(), bare / wrapped with %%w [these two also with an OK status]; context.Canceled / context.DeadlineExceeded bare / wrapped once / twice / in an Unwrap() type / joined; errors.New (Unknown)} x server interceptor {none, passes the error on, annotates it with %%w} x every code the carrier can carry (all codes of (a); 1 and 4 for context errors) x 0..1 status details; unary: x request live/cancelled x {NewServer+WithServerUnaryInterceptor with each renderer; HandleServices, HandleMethod with their unaryInt argument, default renderer} [%d cases]; server-streaming: x {NewServer+WithServerStreamInterceptor, HandleServices, HandleStream with streamInt} x (0 or 1 message sent) [%d cases]; each x option lists {none, header+trailer}, body intact and cut short. The status the handler returned is what grpc-go reads from the error (status.FromError, i.e. errors.As, then status.FromContextError, i.e. errors.Is); every member is first calibrated: that reading must give the code the member was built from. Oracle as in (a)/(d) with that status (message of a joined error not judged). Reported once per (carrier, wrapped by the handler alone / also by an annotating interceptor) under the simplest failing member, whose clause is in the tail. (j) several registrations in one process: every sequence of 1 and 2 registrations over %d (entry point, renderer option) pairs = {HandleServices, HandleMethod, HandleStream, NewServer+RegisterService} x {no option, ErrorRenderer(DefaultErrorRenderer), a renderer that writes nothing, a renderer with its own status 418} and every sequence of 3 over %d of them (quick tier: without the explicit default) = %d sequences, EACH IN A PROCESS OF ITS OWN (child of this binary); sequences of 1 and 2: after every registration every handler made so far (unary and streaming) is called with every code of (a) x request live/cancelled (streams: live); sequences of 3: after the third registration every handler with codes %v x live/cancelled [%d requests]. Each handler is judged against its OWN options: no option / explicit default -> the documented table and the 499 rule and no custom renderer called; custom renderer -> exactly its own renderer called once with the handler's code, nobody else's; always: the caller recovers the code (unary: recorded reply through the real client; stream: end to end). Reported once per (entry point and option of the judged handler, unary/stream, clause) under the shortest failing sequence. distinct_nontrivial adds for (i) every case x option list except the plain success and for (j) every request with a non-OK code (distinct by sequence, judged handler, moment, method kind, code, cancellation; counted in the children). (k)+(l) the client-side dimensions of extra.go: (k) one option of the kinds the channel does not act on today, %d members {grpc.MaxCallRecvMsgSize 0 / exactly the response's size (%d) / 1024 / MaxInt32; MaxCallSendMsgSize exactly the request's size (%d) / 1024; both limits at the exact sizes; WaitForReady true / false; CallContentSubtype(proto); ForceCodec(proto); UseCompressor(gzip); MaxRetryRPCBufferSize(1024); OnFinish}, and (l) how the transport reports the reply's length {declared: ContentLength and Content-Length header = the body's size; chunked: ContentLength -1}. Crossed with phase (a) - which for this also gets a fourth renderer, \"doc\", writing a 2 KiB JSON error document with Content-Length under the documented status - as %d further lists per recorded reply (of the cases with handler metadata none / both, message \"msg\", 0..1 details, and of the GRPC-Timeout and error-carrying-OK cases): {no extra, each extra} x %s x framing (%s), body intact and cut short; with the synthetic replies of (b) for every status x header shape x body {encoded response; a proxy's 2 KiB error page, where the reply is a failure} x %d lists; with the streaming method of (d) for handler metadata none/both x 0..1 details x every extra x {alone, with one of each older kind}; and with the plain cases over net/http on loopback (g'): %d codes x renderers {%s, docstream = the document without Content-Length, flushed} x {none, header+trailer, every extra alone / with one of each older kind} [%d cases], where net/http itself frames the reply. Oracle unchanged: a failed call carries no response message, so no limit applies to it and the caller recovers exactly the handler's code, message and details, however long the error body; a success must stay a success, except that where a delivered message is larger than the receive limit (recv=0) both success and ResourceExhausted (grpc-go) are accepted. Failures of a list with an extra option are reported once per (extra option, renderer, handler succeeded/failed, clause) - synthetic: (extra option, header shape, clause); stream: (extra option, succeeded/failed, clause) - under the simplest failing member.",
+		"rule": fmt.Sprintf("total enumeration. (a) unary, server then client: (%d gRPC codes: 0..17, 99, 1000, 2^31-1, 2^31, 3e9, 2^32-1%s) x (request context live/cancelled) x (%d renderers: %s) x (handler sets no metadata / header / trailer / both) x (message \"msg\" / empty / with colons) x (0..2 status details) through the real server on a recorder [plus GRPC-Timeout expired/far x cancelled x 3 codes, and an error carrying OK x renderers], and every recorded reply through the real client once for EACH of the %d call-option lists {0,1,2 grpc.Header} x {0,1,2 grpc.Trailer} x {grpc.Peer or not} x {grpc.PerRPCCredentials or not}, body intact and cut short. (b) unary, synthetic replies: every HTTP status 100..599 x 6 X-GRPC-Status shapes (absent, \"\", \"x:y\", \":\", \"5\", \"5:a:b: c\") x reply metadata present or not x X-GRPC-Details present or not x body (encoded response / empty) x %d option lists (quick tier: every subset of the four option kinds plus the doubled Header/Trailer lists, 19; thorough: all 36) through Invoke. (c) the same statuses x shapes x metadata (x details header%s) x the same option lists through NewStream with a well-formed framed body. (d) server-streaming method end to end through the real server and client: codes x handler metadata x message x details x (0 or 1 message sent first) x option lists, plus an error carrying OK. (e) handler-set metadata colliding with the protocol's own response headers: %d entries = {x-grpc-status: another code+message / \"0:OK\" / unparseable / the handler's code with another message; x-grpc-details: a decodable stale detail / not base64; content-type: text/plain / application/json; content-length: 0 / 3 / 99999} x {grpc.SetHeader(key), grpc.SetTrailer(key), grpc.SetHeader(\"x-grpc-trailer-\"+key)}, each contradicting what the handler then returns, crossed with codes x live/cancelled x renderers x handler metadata (%s) x all option lists, body intact and cut short; status details 1..2 swept for the status/details entries and the message shapes for the status entries; plus an error carrying OK x entries x renderers [%d server cases]. (f) the two-hop chain end to end: a backend httpgrpc server (every code x 0..1 details, sets h-key/t-key) called through an httpgrpc channel by a gateway handler that relays the backend call's grpc.Header / grpc.Trailer metadata (header only / trailer only / both) with grpc.SetHeader / SetTrailer and then returns its own outcome (%d gateway codes x 0..1 details, %s) x renderers x all option lists of the outer caller [%d cases]. (g) the same entries and the chain (backend codes 0/5/14, both hops) over net/http on loopback for gateway codes 0/5/14 x renderers x option lists {none, header+trailer}, and the stream entries for codes 0/5 [%d cases]. (h) server-streaming method: the same %d key/value pairs x {SetHeader, SendHeader, SetTrailer} x codes x (0 or 1 message sent) x (0..1 details for status/details entries) x all option lists [%d cases]. Oracle: documented HTTP status (499 rule); the caller gets exactly the handler's code, message and details whenever X-GRPC-Status is present, under every option list; without it OK for 2xx only; grpc.Header/grpc.Trailer variables hold the handler's h-key/t-key. In (e)-(h) the oracle is the same: what the HANDLER (the gateway) returned, whatever metadata it set. A case is non-trivial when it reaches the error renderer or the status-derivation path (everything except the plain OK reply of (a)/(d); a success of (e)/(f) counts only when a status or details header is on the recorded reply; (g)/(h) by all parameters); distinct by all its parameters including the option list. Failures are reported once per (old-grammar case, clause) - in (e)-(h) once per (colliding entry or chain, handler succeeded/failed, clause) - under the simplest failing member; the rest are counted in collapsed_failures. (i) how the handler's error carries the code: %d carriers {status.Error as it is; wrapped with %%w once / twice; inside an application error type with Unwrap(); errors.Join(status, other) / errors.Join(other, status); an application error type with GRPCStatus(), bare / wrapped with %%w [these two also with an OK status]; context.Canceled / context.DeadlineExceeded bare / wrapped once / twice / in an Unwrap() type / joined; errors.New (Unknown)} x server interceptor {none, passes the error on, annotates it with %%w} x every code the carrier can carry (all codes of (a); 1 and 4 for context errors) x 0..1 status details; unary: x request live/cancelled x {NewServer+WithServerUnaryInterceptor with each renderer; HandleServices, HandleMethod with their unaryInt argument, default renderer} [%d cases]; server-streaming: x {NewServer+WithServerStreamInterceptor, HandleServices, HandleStream with streamInt} x (0 or 1 message sent) [%d cases]; each x option lists {none, header+trailer}, body intact and cut short. The status the handler returned is what grpc-go reads from the error (status.FromError, i.e. errors.As, then status.FromContextError, i.e. errors.Is); every member is first calibrated: that reading must give the code the member was built from. Oracle as in (a)/(d) with that status (message of a joined error not judged). Reported once per (carrier, wrapped by the handler alone / also by an annotating interceptor) under the simplest failing member, whose clause is in the tail. (j) several registrations in one process: every sequence of 1 and 2 registrations over %d (entry point, renderer option) pairs = {HandleServices, HandleMethod, HandleStream, NewServer+RegisterService} x {no option, ErrorRenderer(DefaultErrorRenderer), a renderer that writes nothing, a renderer with its own status 418} and every sequence of 3 over %d of them (quick tier: without the explicit default) = %d sequences, EACH IN A PROCESS OF ITS OWN (child of this binary); sequences of 1 and 2: after every registration every handler made so far (unary and streaming) is called with every code of (a) x request live/cancelled (streams: live); sequences of 3: after the third registration every handler with codes %v x live/cancelled [%d requests]. Each handler is judged against its OWN options: no option / explicit default -> the documented table and the 499 rule and no custom renderer called; custom renderer -> exactly its own renderer called once with the handler's code, nobody else's; always: the caller recovers the code (unary: recorded reply through the real client; stream: end to end). Reported once per (entry point and option of the judged handler, unary/stream, clause) under the shortest failing sequence. distinct_nontrivial adds for (i) every case x option list except the plain success and for (j) every request with a non-OK code (distinct by sequence, judged handler, moment, method kind, code, cancellation; counted in the children). (k)+(l) the client-side dimensions of extra.go: (k) one option of the kinds the channel does not act on today, %d members {grpc.MaxCallRecvMsgSize 0 / exactly the response's size (%d) / 1024 / MaxInt32; MaxCallSendMsgSize exactly the request's size (%d) / 1024; both limits at the exact sizes; WaitForReady true / false; CallContentSubtype(proto); ForceCodec(proto); UseCompressor(gzip); MaxRetryRPCBufferSize(1024); OnFinish}, and (l) how the transport reports the reply's length {declared: ContentLength and Content-Length header = the body's size; chunked: ContentLength -1}. Crossed with phase (a) - which for this also gets a fourth renderer, \"doc\", writing a 2 KiB JSON error document with Content-Length under the documented status - as %d further lists per recorded reply (of the cases with handler metadata none / both, message \"msg\", 0..1 details, and of the GRPC-Timeout and error-carrying-OK cases): {no extra, each extra} x %s x framing (%s), body intact and cut short; with the synthetic replies of (b) for every status x header shape x body {encoded response; a proxy's 2 KiB error page, where the reply is a failure} x %d lists; with the streaming method of (d) for handler metadata none/both x 0..1 details x every extra x {alone, with one of each older kind}; and with the plain cases over net/http on loopback (g'): %d codes x renderers {%s, docstream = the document without Content-Length, flushed} x {none, header+trailer, every extra alone / with one of each older kind} [%d cases], where net/http itself frames the reply. Oracle unchanged: a failed call carries no response message, so no limit applies to it and the caller recovers exactly the handler's code, message and details, however long the error body; a success must stay a success, except that where a delivered message is larger than the receive limit (recv=0) both success and ResourceExhausted (grpc-go) are accepted. Failures of a list with an extra option are reported once per (extra option, renderer, handler succeeded/failed, clause) - synthetic: (extra option, header shape, clause); stream: (extra option, succeeded/failed, clause) - under the simplest failing member. PANICS: a panic of library code is a violation for the case at hand in every phase, and the enumeration goes on with the next case. The handler side (building the server or handler through its entry point, and serving the request) is guarded wherever it runs - on a recorder, inside a round tripper (streaming end to end, the chain's backend hop), and under net/http on loopback, where the panic is recorded before net/http drops the connection and the verdict names what the caller then saw -: clause server-panic (backend-panic for the chain's backend), grouped by what the handler was asked to render (code, cancellation, renderer; streams: code), the rest of the simplest panicking member in the tail. Client calls are made under recover (clause panic). Every evaluation that makes a STREAMING call (phases (c), (d), (h) and the streaming half of (i)) is made in a child process of this binary, a batch of cases at a time, because the streaming client derives the status on a goroutine of its own where no recover of the caller reaches: if the child dies of a Go panic the call it was making gets clause panic-escaped (the answer for a call is written only after the goroutines the library started for it have ended), the remaining option lists of that case and the remaining cases of its group are not run, the child is started again and the enumeration goes on; a sequence of (j) whose process dies of a panic is reported the same way for the sequence as a whole.",
 			len(codeList), map[bool]string{true: ", 18..64, 255, 256, 65535, 65536, 2^31+5, 2^32-2", false: ""}[thorough], len(renderers), strings.Join(renderers, "/"), len(optSets), len(sweepSets), map[bool]string{true: "", false: " only where a code is parseable"}[thorough],
 			len(unaryCollides), map[bool]string{true: "none / both", false: "none; none / both in the thorough tier"}[thorough], collideCases,
 			len(gatewayCodes), map[bool]string{true: "request live/cancelled", false: "request live; the 24 quick-tier codes and live/cancelled in the thorough tier"}[thorough], chainCases, wireCases, len(streamCollides)/3, streamCollideCases,
 			len(allCarriers()), carrierCases, carrierStreamCases, len(allRegSpecs()), len(tripleSpecs), len(regCases), tripleCodes, regProbes,
 			len(extraIDs), respSize, reqSize, len(extraSets), map[bool]string{true: "{none, header, trailer, header+trailer, peer, creds, one of each, two headers + two trailers + peer + creds}", false: "{no other option, one of each older kind}"}[thorough], map[bool]string{true: "declared / chunked", false: "declared / chunked for the size options and for no extra, declared for the rest"}[thorough], len(sweepExtra), len(wireCodes), strings.Join(renderersA, "/"), extraWireCases),
 		"eval_child_restarts":    iso.Restarts,
+		"eval_child_not_run":     iso.NotRun,
 		"extra_option_lists":     len(extraSets),
 		"extra_evaluations":      extraEvals,
 		"loopback_plain_cases":   extraWireCases,
@@ -1595,13 +1605,14 @@ func main() {
 		"registration_sequences": len(regCases),
 		"registration_requests":  regProbes,
 		"samples":                samples,
-		"exhaustive":             true,
+		"exhaustive":             iso.NotRun == 0,
 	}, []string{
 		"net/http itself is exercised only in (g) (loopback, keep-alives off); everywhere else: server on httptest.ResponseRecorder, client on a canned RoundTripper (streaming end to end: the handler runs inside RoundTrip, the reply is complete when it returns)",
 		"colliding metadata keys are lower case (what metadata.Pairs and a relayed grpc.Header variable produce); one colliding entry per handler, except in the chain, which relays everything the backend reply carried",
 		"the chain's backend hop runs without a recorder in between only in (g); in (f) both hops are recorder-based",
 		"one extra option (k) per call (plus the pair of both limits); the deprecated aliases FailFast and CallCustomCodec are not members; send limits below the request's size and receive limits between 1 and the response's size minus 1 are not members (the handler may then not run / what a delivered oversized message turns into is not the statement's subject); (k) and (l) are not crossed with the colliding-metadata, chain, carrier and registration phases",
 		"the JSON unary content type is not enumerated (the real client never sends it)",
+		"panics: unary Invoke reads the reply body on a goroutine of its own that runs no library code of the pinned tree (ioutil.ReadAll and Close of the transport's body); a change that puts panicking library code on that goroutine ends the checking process (exit 2, could not decide) instead of being reported; after more than 400 deaths of the evaluating child the remaining streaming cases are not run (eval_child_not_run, exhaustive false)",
 		"(i) the entry points other than NewServer are crossed with the carriers under the default renderer only (entry point x renderer option is (j)); one wrapping layer per interceptor, one interceptor per handler; an interceptor that REPLACES the status is not a member (the status the handler returned is then not defined)",
 		"(j) all registrations of a sequence use the same service (t.S with unary M and server-streaming SS; the request value selects the code), no interceptors; sequences of 3 are exercised only after the third registration (the states before it are the cases of the shorter sequences) and, in the quick tier, with 5 codes and without the explicit-default option; sequences longer than 3 are not enumerated",
 	}))
